@@ -73,6 +73,8 @@ def collect_obligations(env, con):
         for (nm, f) in con.pre(Ctx(ex, st0, args, ghost=ghost)):
             st0.assume(f)
         old = st0.fork()
+        ex.fentry = old
+        ex.case_ghost = ghost
         if check_sat(st0.pc, 5000)[0] == "unsat":
             allob.append(Oblig("%s/pre.cover" % cname, "vacuous", [], FALSE, con.qual))
             continue
@@ -128,7 +130,7 @@ def extract_model(solver, ob):
                 out[d.name()] = z3.is_true(v)
             elif z3.is_rational_value(v):
                 out[d.name()] = float(v.as_fraction())
-            elif z3.is_array(v) or z3.is_as_array(v) or z3.is_lambda(v) or z3.is_quantifier(v):
+            else:
                 # evaluate small prefix of byte arrays
                 try:
                     arr = d()
